@@ -1,25 +1,25 @@
 SPECIFICATION Spec
 CONSTANTS
   Threads = {1, 2, 3}
-  Prog <- ProgIt1
-  HashOf <- HashId
-  InitKeys <- Init1
+  Prog <- ProgTree3
+  HashOf <- HashSame
+  InitKeys <- Init3
   N0 = 2
   DCAP = 2
-  MaxNodes = 8
+  MaxNodes = 24
   MaxTabs = 2
-  STRIDE = 1
+  STRIDE = 4
   MAXRES = 100
   STAMPCHECK = TRUE
   ACSTAMPCHECK = TRUE
   TRAVOFF = 0
   RETAINCHECK = TRUE
-  TT = 100
-  MTC = 100
-  UT = 6
-  SMIN = 3
-  SMAX = 9
-  XSKIP = FALSE
+  TT = 2
+  MTC = 2
+  UT = 1
+  SMIN = 1
+  SMAX = 2
+  XSKIP = TRUE
 INVARIANTS Linearizable NoDeadlock ResizeSafe QuiescentOK ReadersNeverBlock IterWeak GhostOK
 PROPERTY NeverShrinks
 VIEW view
